@@ -44,20 +44,19 @@ def apply_state(state):
     import io
 
     note = {}
-    if state in ("close1", "close012", "close012-hold0"):
-        os.close(1)
-    if state in ("close0", "close012", "close012-hold0"):
-        os.close(0)
-    if state in ("close2", "close012", "close012-hold0"):
-        os.close(2)
-    if state == "close012-hold0":
-        note["held_fd"] = os.open(os.devnull, os.O_RDONLY)  # takes descriptor 0, so the next file opened lands on 1
-    if state == "fake-bytesio":
+    aliases = {"close012": "close0+close1+close2", "close012-hold0": "close0+close1+close2+hold0"}
+    tokens = aliases.get(state, state).split("+")
+    for fd, tok in ((1, "close1"), (0, "close0"), (2, "close2")):
+        if tok in tokens:
+            os.close(fd)
+    if "hold0" in tokens:
+        note["held_fd"] = os.open(os.devnull, os.O_RDONLY)  # takes the lowest free descriptor, so the next file lands on the one after
+    if "fake-bytesio" in tokens:
         class Capture(io.BytesIO):
             """a BytesIO-like replacement of sys.stdout (no .buffer, no file descriptor)"""
 
         sys.stdout = Capture()
-    if state == "fake-stringio":
+    if "fake-stringio" in tokens:
         sys.stdout = io.StringIO()
     note["sys_stdout"] = type(sys.stdout).__name__
     return note
